@@ -410,6 +410,9 @@ def check_eval(run, s, so, day, rng, every_minute):
             run.violation("evaluated-value-differs-from-interpreter", dict(wit, time=t, library=got, interpreter=want))
             return
         # the value must not change before the reported next transition
+        if not (isinstance(nxt, (tuple, list)) and len(nxt) == 4 and all(isinstance(x, int) for x in nxt)):
+            run.violation("next-transition-is-not-a-time", dict(wit, time=t, next=repr(nxt)[:40]))
+            return
         nt = secs(tuple(nxt))
         if nt <= secs(t):
             run.violation("next-transition-not-in-the-future", dict(wit, time=t, next=list(nxt)))
